@@ -84,6 +84,12 @@ SameBody(a, b) == a.t = "obj" /\ b.t = "obj" /\ Len(a.m) = Len(b.m) /\ \A i \in 
 BodyOK(sent, outcome, got, mwgot) ==
   outcome = "ok" /\ SameBody(BodyExpected(sent), got) /\ SameBody(got, mwgot)
 
+\* Form = {a: string (required), n: integer, l: [string], d: string default "fd"}, carried as
+\* application/x-www-form-urlencoded or multipart/form-data
+FormExpected(b) == [b EXCEPT !.m[4] = IF b.m[4] = Absent THEN Str(<<102, 100>>) ELSE b.m[4]]
+FormOK(sent, outcome, got, mwgot) ==
+  outcome = "ok" /\ SameBody(FormExpected(sent), got) /\ SameBody(got, mwgot)
+
 (**************************** responses: abstract **************************)
 \* declared responses of the response operation: 200 (header + body), 201 (no content),
 \* 4XX (header + body + status code), default (header + body + status code)
